@@ -87,7 +87,34 @@ def one_point(d, k):
     o = json.loads(r.stdout.strip().splitlines()[-1])
     o["k"] = k
     o["crashed"] = crashed
+    if "unspent_map" in o:
+        um = o.pop("unspent_map")
+        tw = twin_unspent(d, o["reopened"]["head"])
+        if tw is not None:
+            o["unspent_vs_replay"] = "ok" if um == tw else "differs:%d/%d outputs" % (len(um), len(tw))
     return o
+
+
+_TWIN = {}
+import threading
+_TWIN_LOCK = threading.Lock()
+
+
+def twin_unspent(d, head):
+    """get_unspent map of a node that only ever processed the chain of `head` (cached per scenario dir and head)."""
+    with _TWIN_LOCK:
+        return _twin_unspent(d, head)
+
+
+def _twin_unspent(d, head):
+    key = (d, head)
+    if key not in _TWIN:
+        p = sh([BIN(), "twin_unspent", "--data", d, "--head", head, "--dir", os.path.join(d, "twin_" + head[:12])])
+        if p.returncode != 0 or not p.stdout.strip():
+            raise ToolError("twin_unspent failed: " + p.stderr[-300:])
+        t = json.loads(p.stdout.strip().splitlines()[-1])
+        _TWIN[key] = t["unspent_map"] if t["ok"] else None
+    return _TWIN[key]
 
 
 def classify(desc, refstate, o):
@@ -96,7 +123,7 @@ def classify(desc, refstate, o):
     ev = {"opened": o.get("init") == "ok", "head_on_chain": False, "valid": False, "converged": False, "input_converged": False}
     if ev["opened"]:
         ev["head_on_chain"] = o["reopened"]["head"] in allowed
-        ev["valid"] = o.get("validate") == "ok"
+        ev["valid"] = o.get("validate") == "ok" and o.get("unspent_vs_replay", "ok") == "ok"
         ev["converged"] = (not o.get("redeliver_errors")) and o["final"]["head"] == refstate["head"] \
             and o["final"]["roots"] == refstate["roots"] and o.get("final_validate") == "ok"
         # the statement's clause: re-delivering the interrupted input alone reaches the uninterrupted node's state
@@ -113,7 +140,8 @@ def point_signature(sc, fails, label, occ):
 
 def describe(sc, label, fails, o):
     return "%s after a kill at '%s' (%s): init=%s %s validate=%s reopened_height=%s redeliver=%s" % (
-        ",".join(PRIMARY[f] for f in fails), label, sc, o.get("init"), o.get("err", "")[:60], str(o.get("validate"))[:60],
+        ",".join(PRIMARY[f] for f in fails), label, sc, o.get("init"), o.get("err", "")[:60],
+        (str(o.get("validate")) + "/unspent:" + str(o.get("unspent_vs_replay", "-")))[:120],
         o.get("reopened", {}).get("head_height"), str(o.get("redeliver_errors"))[:80])
 
 
